@@ -120,6 +120,17 @@ func (s *Stats) Merge(o *Stats) {
 
 func (s *Stats) Fail(d map[string]interface{}) { s.Disagreements = append(s.Disagreements, d) }
 
+// PropertyFailures counts recorded disagreements that are property failures of the implementation.
+func (s *Stats) PropertyFailures() int {
+	n := 0
+	for _, d := range s.Disagreements {
+		if d["property_failed"] != nil {
+			n++
+		}
+	}
+	return n
+}
+
 // Obs is an observation taken inside a handler at a verifPoint.
 type Obs struct {
 	Point string
@@ -158,6 +169,10 @@ type World struct {
 	mon    *Monitor
 	Quiet  bool // do not generate ops; used by clustersim
 	Dirty  bool // an adversarial op happened: monitors are off
+	// Broken: model and implementation disagreed earlier in this sequence. The sequence goes on in
+	// search mode: no more comparisons, the property monitors keep evaluating the real execution,
+	// looking for a concrete input on which a property fails.
+	Broken bool
 	voted  map[uint64]map[uint64]bool // term -> voters whose response was delivered
 }
 
@@ -381,7 +396,7 @@ func (w *World) Step(op Op) bool {
 	}
 	matched := false
 	var models []interface{}
-	for level := 1; level <= 3 && !matched; level++ {
+	for level := 1; level <= 3 && !matched && !w.Broken; level++ {
 		ans, err := w.D.Ask(map[string]interface{}{"engine": "node", "what": "step", "id": w.St.Steps,
 			"pre": pre, "op": op.model(), "rollAt": rollAt, "level": level})
 		if err != nil {
@@ -421,7 +436,7 @@ func (w *World) Step(op Op) bool {
 		}
 	}
 	w.classify(pre, op, post, real)
-	if !matched {
+	if !matched && !w.Broken {
 		note := "no model outcome equals the real outcome"
 		var diffs []string
 		if len(models) > 0 {
@@ -431,8 +446,15 @@ func (w *World) Step(op Op) bool {
 		if len(models) > 0 {
 			m0 = models[0]
 		}
-		w.record("correspondence", pre, real, map[string]interface{}{"first": m0, "diff": diffs, "n": len(models)}, op, note, nil)
-		return false
+		w.St.Hist["correspondence-breaks"]++
+		if w.St.Hist["correspondence-breaks"] <= 4 {
+			w.record("correspondence", pre, real, map[string]interface{}{"first": m0, "diff": diffs, "n": len(models)}, op, note, nil)
+		}
+		// keep going in search mode: the monitors look for a failing input on the implementation
+		w.Broken = true
+	}
+	if w.Broken {
+		w.St.Hist["search-mode-steps"]++
 	}
 	if w.Node.Panic != "" {
 		if !w.Dirty {
